@@ -1,4 +1,5 @@
 import Proofs.Reader
+import Proofs.ReaderDocs
 /-!
 C03 — the model mirrors the source text, independent of formatting.
 
@@ -17,6 +18,18 @@ theorem C03.mirror (c : Ctx) (ls : List Line) (w w' : W) (comp : Composite)
     (h : readText c ls w = .ok (comp, w')) :
     comp.schemas.map Schema.view = (Spec.of ls).schemas ∧ comp.deprecated = (Spec.of ls).deprecated :=
   readText_mirror h
+
+/-- … with its attached comment: in an accepted text (lines well-formed: an empty line holds neither a statement nor a
+    comment) every attribute carries exactly the comment run that follows its statement — its trailing comment and the
+    comments of the following lines up to the next statement or empty line (`attrDocs`) —, fields/paddings and constants
+    each in source order, and every schema carries the comment run at its start (`commentRun`, `markerDocs`).
+    No comment is lost into a neighbouring attribute, none is attached twice. -/
+theorem C03.docs (c : Ctx) (ls : List Line) (w w' : W) (comp : Composite)
+    (hwf : ∀ l ∈ ls, l.wf) (h : readText c ls w = .ok (comp, w')) :
+    comp.schemas.flatMap (fun sc => sc.fields.map fun a => (a.core, a.doc)) = (attrDocs ls).filter (fun p => !isConst p) ∧
+    comp.schemas.flatMap (fun sc => sc.consts.map fun a => (a.core, a.doc)) = (attrDocs ls).filter isConst ∧
+    comp.schemas.map (·.doc) = commentRun "" ls :: markerDocs ls :=
+  readText_docs hwf h
 
 /-- Presence or absence of the final newline: an additional empty last line changes neither acceptance nor the
     result (docs included). -/
@@ -49,7 +62,7 @@ theorem C03.blank_comment_lines_partial (c : Ctx) (ls₁ ls₂ : List Line) (l :
 
 namespace C03.Examples
 def ctx : Ctx := ⟨0, 0, 1, fun w _ => (w, none), false⟩
-def ln (s : Option Stmt) (c : Option String := none) (e : Bool := false) : Line := ⟨s, [], [], false, none, c, e, false⟩
+def ln (s : Option Stmt) (c : Option String := none) (e : Bool := false) : Line := ⟨s, [], [], false, none, c, e, false, 0⟩
 def fld (n : String) (c : Option String := none) : Line := ln (some (.attr ⟨.field, n, "saturated uint8", ""⟩)) c
 def dir (n : String) (e : Option EVal := none) : Line := ln (some (.directive n e ""))
 /-- `# hdr`, ``, `uint8 a # da`, `# da2`, `void3`, `uint8 B = 3 # c`, `@extent 64`, `---`, `@union`, `uint8 x`,
@@ -88,3 +101,12 @@ open C03.Examples in
 example : (okPart (readText ctx (svc ++ [emptyLine false]) W.init)).isSome = true ∧
     (okPart (readText ctx ([fld "a"] ++ ln none (some " c") :: [dir "sealed"]) W.init)).isSome = true ∧
     (okPart (readText ctx ([fld "a"] ++ [dir "sealed"]) W.init)).isSome = true := by decide
+
+open C03.Examples in
+/-- non-vacuity of `C03.docs`: the lines of the example are well-formed, and the declarative docs are the expected ones -/
+example : (∀ l ∈ svc, l.wf) ∧
+    (attrDocs svc).map (·.2) = ["da\nda2", "", "c", "", "last"] ∧ commentRun "" svc :: markerDocs svc = ["hdr", ""] := by
+  refine ⟨?_, by decide, by decide⟩
+  intro l hl
+  simp [svc, ln, fld, dir] at hl
+  rcases hl with rfl | rfl | rfl | rfl | rfl | rfl | rfl | rfl | rfl | rfl | rfl | rfl <;> simp [Line.wf]
